@@ -1,7 +1,11 @@
 """C05 deleting the tip restores the exact previous node state.  Uses the Node scripts of C03: for every delete the
 sorted database dump after apply+delete must equal the dump before the apply (finalized marker, temporary blocks and data
 pruned below the finalized height excluded; state diffs compared as sets), removed blocks are retrievable as temp blocks when
-requested, and a chain reached through apply/delete detours equals the same chain built directly."""
+requested, and a chain reached through apply/delete detours equals the same chain built directly.
+Store level (spec/ChainStore.tla): the block store of pkg/blockchain as a sequential object - after any number of add /
+remove / clear-temp / restart steps every reader (tip, by height, by id, bulk lookups, transactions, assets, events with
+the retention rule, temporary blocks, finalized marker) answers as a function of the logical chain; the block cache is
+configured to 2-3 blocks so that it slides, runs empty and is refilled inside short scripts."""
 from props import c03
 
 C05_KEYS = ("delete-not-restoring", "delete-refused", "temp-missing", "reorg-not-equivalent", "state-mismatch:temp", "state-mismatch:bftheights", "restart-fails")
@@ -20,5 +24,72 @@ def diff_level(ctx):
                 json.dumps(x["observed"])[:300], x["expected"][:300]), dict(seed=ctx.seed * 100 + 5, sequences=nseq, line=x["line"], history=x["history"][-40:]))
     return dict(diff_level_commits=m.get("commit", 0), diff_level_reverts=m.get("revert", 0))
 
+def store_level(ctx):
+    """the block store as a sequential object (spec/ChainStore.tla): every reader of pkg/blockchain after any number of
+    add / remove / clear-temp / restart steps, with a block cache small enough to slide, empty and refill"""
+    import json, os
+    from common import Inconclusive, log
+    from props import c01
+    binp = ctx.go_build("./cmd/store")
+    quick = ctx.tier == "quick"
+    # exhaustive for short chains (VIEW: the script is a history variable)
+    cfg = c01.write_cfg(ctx, "store_exh", c01.cfg_text("ChainStore_exh", MaxSteps=6 if quick else 7))
+    r = ctx.tlc("MCChainStore", cfg, workers=12, timeout=1800)
+    if r["violation"]:
+        raise Inconclusive("ChainStore.tla violates one of its own properties: %s" % r["outpath"])
+    tot = dict(scripts=0, steps=0, queries_compared=0, exhausted=0); ops = {}
+    for keep in (2, -1):
+        cfg = c01.write_cfg(ctx, "store_sim%d" % keep, c01.cfg_text("ChainStore_sim", Keep=(keep if keep >= 0 else 99)))   # 99 > any height of the model: nothing is ever pruned
+        r = ctx.tlc("MCChainStore", cfg, workers=1, timeout=900, simulate=30 if quick else 300, depth=18, seed=ctx.seed + keep + 3)
+        if r["violation"]:
+            raise Inconclusive("ChainStore.tla violates one of its own properties: %s" % r["outpath"])
+        sf = ctx.path("store%d.ndjson" % keep); n = 0
+        with open(sf, "w") as fh:
+            for d in ctx.dumps(r["out"]):
+                if n < (1200 if quick else 12000):
+                    fh.write(json.dumps(d) + "\n"); n += 1
+        for mc in (2, 3, 515):
+            cf = ctx.path("store_cfg.json"); json.dump(dict(maxCache=mc, keep=keep), open(cf, "w"))
+            of = ctx.path("store_res.json")
+            if os.path.exists(of):
+                os.remove(of)
+            p = ctx.run([binp, sf, cf, of], timeout=1800)
+            if not os.path.exists(of):
+                raise Inconclusive("store harness failed (rc=%d): %s" % (p.returncode, p.stderr[-1500:]))
+            res = json.load(open(of))
+            if res.get("harness_errors"):
+                raise Inconclusive("store harness error: %s" % res["harness_errors"][:2])
+            for v in res.get("violations") or []:
+                ctx.violation(v["key"], v["what"], v.get("replay"))
+            tot["scripts"] += res["scripts"]; tot["steps"] += res["steps"]; tot["queries_compared"] += res["queries_compared"]
+            tot["exhausted"] += res["steps_with_cache_window_exhausted"]
+            for k, v in res["ops"].items():
+                ops[k] = ops.get(k, 0) + v
+    log("[store] scripts=%d steps=%d ops=%s queries=%d cache-window-exhausted=%d" % (tot["scripts"], tot["steps"], ops, tot["queries_compared"], tot["exhausted"]))
+    if not ctx.violations and (tot["queries_compared"] < 100000 or tot["exhausted"] == 0 or ops.get("remove", 0) < 500):
+        raise Inconclusive("store scripts did not exercise enough (queries / removals beyond the cache window): vacuous")
+    return dict(store_scripts=tot["scripts"], store_steps=tot["steps"], store_ops=ops, store_queries_compared=tot["queries_compared"],
+                store_steps_with_cache_window_exhausted=tot["exhausted"])
+
+def extra(ctx):
+    res = diff_level(ctx)
+    res.update(store_level(ctx))
+    return res
+
 def run(ctx):
-    c03.run_node(ctx, lambda k: k.startswith(C05_KEYS), extra=diff_level)
+    from props import c03 as _c03
+    if ctx.replay:
+        import json
+        d = json.load(open(ctx.replay)).get("replay")
+        if isinstance(d, dict) and d.get("store"):
+            binp = ctx.go_build("./cmd/store")
+            sf = ctx.path("replay.ndjson"); open(sf, "w").write(json.dumps(dict(script=d["script"])) + "\n")
+            cf = ctx.path("replay_cfg.json"); json.dump(d["config"], open(cf, "w"))
+            of = ctx.path("replay_res.json")
+            ctx.run([binp, sf, cf, of], timeout=600)
+            res = json.load(open(of))
+            for v in res.get("violations") or []:
+                ctx.violation(v["key"], v["what"], v.get("replay"))
+            from common import finish
+            finish(ctx, _c03.LEVEL, dict(traces_validated_against_impl=res["scripts"], samples=[d["script"][:2]]))
+    c03.run_node(ctx, lambda k: k.startswith(C05_KEYS), extra=extra)
